@@ -26,10 +26,12 @@ ASSUMPTIONS = [
 ]
 TRUSTED = ["taskiq_dependencies 1.5.7 (installed, executed as is)", "CPython asyncio (real, virtual clock)", "vt.sym explorer"]
 BOUNDS = {"graphs": "1 generator dep; generator + async-generator dep; generator dep + failing generator dep", "messages": 1}
-REQUIRED_COVERS = ["gen", "gen_agen", "fail", "nocache", "cm_acm", "chain3", "propagate", "no_propagate", "exception_seen", "timeout", "return"]
+REQUIRED_COVERS = ["inmemory_broker", "gen", "gen_agen", "fail", "nocache", "cm_acm", "chain3", "propagate", "no_propagate", "exception_seen", "timeout", "return"]
 
 
-def cases(tier: str) -> List[Any]:
+def cases(tier: str, hname: str = "harness") -> List[Any]:
+    if hname == "inmemory":
+        return [{"propagate": p, "fails": f, "cast_types": ct} for p in (True, False) for f in (True, False) for ct in (True, False)]
     out = []
     for deps in ("gen", "gen_agen", "fail", "nocache", "cm_acm", "chain3"):
         for prop in (True, False):
@@ -91,3 +93,73 @@ def signature(f: Dict[str, Any]) -> str:
     if f["label"] == "teardown_in_reverse_order":
         sig += ":" + str(f["case"].get("deps")) + ":" + ">".join(f["info"].get("closed", []))
     return sig
+
+
+def inmemory(c: sym.Ctx, case: Dict[str, Any]) -> None:
+    """the same teardown obligations when the receiver is the one InMemoryBroker builds from its own options"""
+    import contextlib
+
+    from taskiq import InMemoryBroker, TaskiqDepends
+
+    from vt.props._recv import Lab
+
+    c.cover("inmemory_broker")
+    lab = Lab(c)
+    log: List[Any] = []
+
+    def gen() -> Any:
+        log.append(("open", "g"))
+        try:
+            yield "g"
+        except BaseException as exc:  # noqa: BLE001
+            log.append(("exc", "g", type(exc).__name__))
+            raise
+        finally:
+            log.append(("close", "g"))
+
+    @contextlib.asynccontextmanager
+    async def acm() -> Any:
+        log.append(("open", "m"))
+        try:
+            yield "m"
+        except BaseException as exc:  # noqa: BLE001
+            log.append(("exc", "m", type(exc).__name__))
+            raise
+        finally:
+            log.append(("close", "m"))
+
+    try:
+        broker = InMemoryBroker(propagate_exceptions=case["propagate"], await_inplace=True, cast_types=case["cast_types"])
+
+        async def target(g: str = TaskiqDepends(gen), m: str = TaskiqDepends(acm)) -> str:
+            log.append(("task",))
+            if case["fails"]:
+                raise ValueError("boom")
+            return "ok"
+
+        task = broker.register_task(target, task_name="t")
+
+        async def main() -> None:
+            await task.kiq()
+
+        mt = lab.loop.create_task(main())
+        lab.drive(mt)
+        exc = mt.exception() if mt.done() else None
+        try:
+            broker.executor.shutdown(wait=False)
+        except Exception:  # noqa: BLE001
+            pass
+    finally:
+        lab.close()
+    c.check(exc is None, "inmemory_send_completes", exc=repr(exc))
+    opened = [e[1] for e in log if e[0] == "open"]
+    closed = [e[1] for e in log if e[0] == "close"]
+    seen = sorted(e[1] for e in log if e[0] == "exc")
+    c.check(opened == ["g", "m"] and closed == ["m", "g"], "teardown_in_reverse_order", opened=opened, closed=closed)
+    if case["fails"] and case["propagate"]:
+        c.check(seen == ["g", "m"], "exception_thrown_into_dependencies_when_propagating", seen=seen, via="InMemoryBroker")
+    else:
+        c.check(seen == [], "no_exception_thrown_into_dependencies", seen=seen, via="InMemoryBroker", propagate=case["propagate"], failed=case["fails"])
+
+
+HARNESSES = {"harness": harness, "inmemory": inmemory}
